@@ -478,6 +478,18 @@ class Evaluator:
             elif isinstance(st, ast.Continue):
                 raise _Continue()
             elif isinstance(st, ast.Expr):
+                v = st.value
+                if isinstance(v, ast.Call):
+                    try:
+                        callee = ast.unparse(v.func)
+                    except Exception:
+                        callee = ""
+                    if callee == "print" or callee.startswith(("logger.", "logging.", "log.", "_log.", "LOGGER.", "warnings.", "sys.stderr.", "sys.stdout.write")):
+                        try:
+                            self.ev(v)
+                        except Unsupported:
+                            pass  # diagnostics whose value is discarded do not influence the fragment's result
+                        continue
                 self.ev(st.value)
             else:
                 raise Unsupported(f"statement {type(st).__name__}")
